@@ -22,6 +22,27 @@ type ValGen struct {
 	alt      int
 	MaxDepth int
 	Share    int // percent chance to reuse an existing cell of the same type
+	// Single: every pointer non-nil, two elements per slice and map, no poison payload anywhere; PoisonOne then poisons
+	// exactly one int or string leaf (a single-fault value: which leaf fails is known, whatever the map order)
+	Single bool
+	leaves []*sx.Node
+}
+
+// PoisonOne turns the pick-th int/string leaf generated so far into the payload fallible functions fail on.
+func (g *ValGen) PoisonOne(pick int) {
+	if len(g.leaves) == 0 {
+		return
+	}
+	n := g.leaves[pick%len(g.leaves)]
+	if n.L[0].S == "bs" {
+		n.L[1].S = "poison"
+	} else {
+		n.L[1].S = "13"
+	}
+	for _, l := range g.leaves {
+		l.L[0].S = "b"
+	}
+	g.leaves = nil
 }
 
 func (g *ValGen) fresh() string { g.label++; return fmt.Sprint(g.label) }
@@ -49,6 +70,18 @@ func (g *ValGen) basic(b *types.Basic, named *types.Named) *sx.Node {
 			return sx.H("b", sx.S("false"))
 		default:
 			return sx.H("b", sx.S("0"))
+		}
+	}
+	if g.Single && (named == nil || named.Obj().Pkg() == nil || !hasConsts(named)) {
+		switch {
+		case b.Info()&types.IsString != 0:
+			n := sx.H("bs", sx.S(rng.Pick(g.R, []string{"a", "héllo wörld", "x y", "b"})))
+			g.leaves = append(g.leaves, n)
+			return n
+		case b.Info()&types.IsInteger != 0:
+			n := sx.H("bi", sx.S(rng.Pick(g.R, []string{"1", "2", "42", "7"})))
+			g.leaves = append(g.leaves, n)
+			return n
 		}
 	}
 	// enum-like named types: prefer declared members, sometimes a non-member
@@ -87,6 +120,16 @@ func (g *ValGen) basic(b *types.Basic, named *types.Named) *sx.Node {
 	return sx.H("b", sx.S("0"))
 }
 
+func hasConsts(named *types.Named) bool {
+	scope := named.Obj().Pkg().Scope()
+	for _, n := range scope.Names() {
+		if c, ok := scope.Lookup(n).(*types.Const); ok && types.Identical(c.Type(), named) {
+			return true
+		}
+	}
+	return false
+}
+
 // ForgetCells makes the values generated from now on share nothing with those generated before (labels stay unique).
 func (g *ValGen) ForgetCells() { g.cells = map[string][]string{} }
 
@@ -107,7 +150,7 @@ func (g *ValGen) val(t types.Type, depth int) *sx.Node {
 	if n, ok := t.(*types.Named); ok {
 		named = n
 	}
-	nilable := g.Mode == 0 || depth >= g.MaxDepth || (g.Mode >= 4 && g.R.Chance(22))
+	nilable := g.Mode == 0 || depth >= g.MaxDepth || (g.Mode >= 4 && !g.Single && g.R.Chance(22))
 	if g.Mode == 2 && depth >= 1 && depth < g.MaxDepth {
 		if _, isPtr := t.Underlying().(*types.Pointer); isPtr {
 			g.alt++
@@ -116,7 +159,7 @@ func (g *ValGen) val(t types.Type, depth int) *sx.Node {
 	}
 	reuse := func(kind string) *sx.Node {
 		ls := g.cells[t.String()]
-		if g.Mode >= 4 && len(ls) > 0 && g.R.Chance(g.Share) {
+		if g.Mode >= 4 && !g.Single && len(ls) > 0 && g.R.Chance(g.Share) {
 			_ = kind
 			return sx.H("ref", sx.A(rng.Pick(g.R, ls)))
 		}
@@ -154,6 +197,9 @@ func (g *ValGen) val(t types.Type, depth int) *sx.Node {
 		if g.Mode >= 4 {
 			n = g.R.Intn(4)
 		}
+		if g.Single {
+			n = 2
+		}
 		out := sx.H("sl", sx.A(l))
 		for i := 0; i < n; i++ {
 			out.Add(g.val(u.Elem(), depth+1))
@@ -183,6 +229,9 @@ func (g *ValGen) val(t types.Type, depth int) *sx.Node {
 		if g.Mode >= 4 {
 			n = g.R.Intn(3)
 		}
+		if g.Single {
+			n = 2
+		}
 		out := sx.H("mp", sx.A(l))
 		seen := map[string]bool{}
 		hasPoison := false
@@ -194,12 +243,14 @@ func (g *ValGen) val(t types.Type, depth int) *sx.Node {
 			// no back-references inside keys: two keys holding the same pointer could be one and the same key
 			saveShare := g.Share
 			g.Share = 0
+			nLeaves := len(g.leaves)
 			k := g.val(u.Key(), depth+1)
 			g.Share = saveShare
 			g.Mode = save
 			// entries are compared in the order of their keys' printed form without addresses: keep those distinct
 			ek := erasedText(k)
 			if seen[ek] {
+				g.leaves = g.leaves[:nLeaves]
 				continue
 			}
 			seen[ek] = true
